@@ -189,7 +189,10 @@ class Route:
         filters = []
         filters_out = []
         anon_counter = 0
-        for part, param, filter, filter_args, filter_selector in cls.parser.iter_parse(rule):
+        # a parser holds the rule it is working on: take a fresh one per call, so
+        # that rules registered from several threads (on any application) do not mix
+        parser = type(cls.parser)()
+        for part, param, filter, filter_args, filter_selector in parser.iter_parse(rule):
             filter_selector = filter_selector or ''
             if not part:  # it is param or/and filter
                 part = '\r'
